@@ -183,6 +183,10 @@ def gen_cli_apply_case(rng, idx):
         argv = ["plan", search, repl, "--preview", "diff", "--no-rename-paths"]
         if rng.random() < 0.2:
             argv += ["--include-styles", "title,dot"]
+        if rng.random() < 0.4:
+            # matches that are found but NOT planned (skipped inside the hunk loop): the lines that carry them next to
+            # planned matches must still be shown as they are
+            argv += ["--exclude-match", ",".join(gen.render(st, swords) for st in rng.sample(["snake", "camel", "pascal", "screaming_snake", "kebab"], rng.randint(1, 2)))]
     else:
         argv = ["replace", "--no-regex", rng.choice([swords[0], search]), repl, "--preview", "diff", "--no-rename-files", "--no-rename-dirs", "--yes"]
     return {"op": "cli", "entry": entry, "tree": c03mod.tree_to_json(tree), "argv": argv + ["--no-auto-init"], "roots": []}
